@@ -228,6 +228,7 @@ def c14(rec, tier):
     if "nan_boxing" in res:
         NB = res["nan_boxing"]
         f10_parity.run_number_equality(rec, NB, "boxed")
+        f10_parity.run_number_roundtrip(rec, NB)
         f6_kinds.run(rec, NB)
         if tier == "thorough":
             f5_trace.run(rec, NB)
@@ -237,6 +238,8 @@ def c14(rec, tier):
     # an unchecked cast is exactly where the two representations part ways (one panics, the other reinterprets bits)
     f9_casts.run_natives(rec, F, S)
     f9_casts.run_vm(rec, F)
+    # the signature check is what keeps the natives' unchecked casts from ever seeing a wrong kind
+    f9_casts.run_arity_enforcement(rec, F, S)
 
 
 def c11(rec, tier):
